@@ -67,10 +67,31 @@ DEVS: list[tuple[str, dict[str, Any], list[str]]] = [
 DPTS = ["switch", "temperature", "percent", "percentV8", "pulse_2byte", "string", "power", "illuminance", "1.001", "5.001",
         "9.001", 9, {"main": 14, "sub": 56}, "color_rgb", "color_rgbw", "date", "time", "scene_number", "hvac_mode",
         "unknown_dpt_name", "999.999", None, {"main": 99}, "latin_1", "color_temperature", "angle", "wind_speed_ms",
-        "humidity", "pressure_2byte", "active_energy"]
+        "humidity", "pressure_2byte", "active_energy",
+        # entries that name no type in unusual ways: digits int() does not take, numbers without a value, broken mappings
+        "\u00b2", "9.\u00b3", "DPT-", "9.", ".1", "9.001.2", "1e3", {"main": "x"}, {"sub": 1}, "<inf-main>", "<inf-sub>",
+        {"main": 9, "sub": "\u00b9"}, -1, 10 ** 30]
 HOT = ["percent", "5.001", "percentU8", "5.004", "angle", "5.003", "switch", "1.001", "temperature", "9.001", "percentV8", "6.001",
        "pulse_2byte", "7.001", "string", "16.000", "latin_1", "16.001", "scene_number", "17.001", "color_rgb", "232.600"]
 PAYLOADS = [("bin", 0), ("bin", 1), ("bin", 5), ("arr", 1), ("arr", 2), ("arr", 3), ("arr", 4), ("arr", 6), ("arr", 8), ("arr", 14)]
+
+
+def _spec(v):
+    """Materialise the table entries JSON can not carry."""
+    if v == "<inf-main>":
+        return {"main": float("inf")}
+    if v == "<inf-sub>":
+        return {"main": 9, "sub": float("inf")}
+    return v
+
+
+def _ref_tc(spec):
+    """The type a table entry names (None: it names none - such an entry is skipped)."""
+    from xknx.dpt import DPTBase
+    try:
+        return DPTBase.parse_transcoder(_spec(spec))
+    except Exception:  # pylint: disable=broad-except
+        return None
 
 
 def gen(seed: int, tier: str) -> dict[str, Any]:
@@ -156,6 +177,13 @@ def _one(plan, with_table: bool):
                         if isinstance(tg.payload.value.value, tuple) else tg.payload.value.value,
                         None if dd is None else (dd.transcoder.__name__, repr(dd.value)), version[0]))
 
+    def set_table(tb):
+        try:
+            xknx.group_address_dpt.set({GroupAddress(a): _spec(d) for a, d in tb.items()})
+        except Exception as exc:  # pylint: disable=broad-except
+            # an entry naming no type is skipped - the entries behind it still count
+            R.violate("C38.decoded-data", f"table-set-raised:{type(exc).__name__}", f"GroupAddressDPT.set() raised {exc!r}")
+
     async def main():
         for spec in plan["devices"]:
             name, extra, _ = DEVS[spec["d"]]
@@ -166,7 +194,7 @@ def _one(plan, with_table: bool):
             devobjs.append(getattr(D, name)(xknx, f"d{len(devobjs)}", **kw))
             xknx.devices.async_add(devobjs[-1])
         if with_table:
-            xknx.group_address_dpt.set({GroupAddress(a): d for a, d in table.items()})
+            set_table(table)
         xknx.telegram_queue.register_telegram_received_cb(sentinel, match_for_outgoing=True)
         await xknx.start()
         for oi, op in enumerate(plan["ops"]):
@@ -176,7 +204,7 @@ def _one(plan, with_table: bool):
                 await asyncio.sleep(0.01)
                 version[0] = 2
                 if with_table:
-                    xknx.group_address_dpt.set({GroupAddress(a): d for a, d in table2.items()})
+                    set_table(table2)
             data = DPTBinary(op["data"]) if op["kind"] == "bin" else DPTArray(tuple(op["data"]))
             payload = GroupValueWrite(data) if op["apci"] == "write" else GroupValueResponse(data)
             xknx.telegrams.put_nowait(Telegram(
@@ -217,11 +245,11 @@ def run(plan: dict[str, Any]) -> dict[str, Any]:
     table2 = {int(k): v for k, v in (plan.get("table2") or {}).items()}
     for (addr, ptype, pval, dd, ver) in dec_a:
         spec = table.get(addr)
-        tc = DPTBase.parse_transcoder(spec) if spec is not None else None
-        if ver == 2 and addr in table2 and DPTBase.parse_transcoder(table2[addr]) is not None:
+        tc = _ref_tc(spec) if spec is not None else None
+        if ver == 2 and addr in table2 and _ref_tc(table2[addr]) is not None:
             # set() merges: a later entry with a known type replaces the earlier one
             spec = table2[addr]
-            tc = DPTBase.parse_transcoder(spec)
+            tc = _ref_tc(spec)
         if tc is None:
             if dd is not None:
                 R.violate("C38.decoded-data", "decoded-without-table-entry", f"address {addr}: {dd}")
